@@ -120,12 +120,18 @@ def grep_forbidden():
     return hits
 
 
+def prop_modules(prop):
+    """Props/<prop>.lean and, when present, its continuation Props/<prop>Session.lean (whole-session theorems that need lemma
+    files which themselves import Props/<prop>.lean)"""
+    return [m for m in (prop, prop + "Session") if os.path.exists(os.path.join(LEAN, "IodineModel", "Props", m + ".lean"))]
+
+
 def prop_theorems(prop):
-    """names of the theorems declared in Props/<prop>.lean (the property statements)"""
-    f = os.path.join(LEAN, "IodineModel", "Props", prop + ".lean")
-    if not os.path.exists(f):
+    """names of the theorems declared in Props/<prop>.lean [+ Props/<prop>Session.lean] (the property statements)"""
+    mods = prop_modules(prop)
+    if not mods:
         return []
-    body = strip_comments(open(f).read())
+    body = "\n".join(strip_comments(open(os.path.join(LEAN, "IodineModel", "Props", m + ".lean")).read()) for m in mods)
     ns = []
     names = []
     for line in body.split("\n"):
@@ -146,7 +152,7 @@ def audit_axioms(prop):
     names = prop_theorems(prop)
     if not names:
         return False, {}, "no theorems found for " + prop
-    src = "import IodineModel.Props.%s\n" % prop + "".join("#print axioms %s\n" % n for n in names)
+    src = "".join("import IodineModel.Props.%s\n" % m for m in prop_modules(prop)) + "".join("#print axioms %s\n" % n for n in names)
     tmp = tempfile.NamedTemporaryFile("w", suffix=".lean", dir=CACHE, delete=False)
     tmp.write(src); tmp.close()
     try:
